@@ -136,6 +136,10 @@ Conf Conf::from_string(const char* str)
 {
 	Conf conf("");
 	while(*str)
+	{
+		if(*str == '}')
+			throw std::runtime_error("unexpected }");
 		str = conf.parse_token(str);
+	}
 	return conf;
 }
